@@ -272,9 +272,14 @@ func execSig(x *Exec, toks []string) string {
 		class := "bad"
 		if r, _ := catch(func() error { return app.AppCodec().UnmarshalInterfaceJSON([]byte(pkJSON), &pk) }); r == "ok" && pk != nil {
 			class = "nomatch"
-			if a.ok {
+			// a key object of the wrong length decodes fine but has no address (the SDK panics)
+			var keyAddr []byte
+			if r2, _ := catch(func() error { keyAddr = pk.Address(); return nil }); r2 != "ok" {
+				class = "malformed"
+				pk = nil
+			} else if a.ok {
 				aa, _ := sdk.AccAddressFromBech32(a.s)
-				if aa.Equals(sdk.AccAddress(pk.Address())) {
+				if aa.Equals(sdk.AccAddress(keyAddr)) {
 					class = "match"
 				}
 			}
@@ -605,6 +610,21 @@ func genSig(g *Gen, n int) {
 				pkJSON, class = g.pick("", "{}", "not json", "{\"@type\":\"/cosmos.crypto.secp256k1.PubKey\",\"key\":\"AA\"}"), "bad"
 			case 2:
 				target, class = "garbage", "nomatch"
+			case 3:
+				// well-formed JSON for a key object of the wrong length: decodes, but has no address
+				pkJSON, class = g.pick("{\"@type\":\"/cosmos.crypto.secp256k1.PubKey\",\"key\":\"AA==\"}",
+					"{\"@type\":\"/cosmos.crypto.ed25519.PubKey\",\"key\":\"AA==\"}",
+					"{\"@type\":\"/cosmos.crypto.secp256r1.PubKey\",\"key\":\"AA==\"}"), "bad"
+				// classify with the real codec: does it decode, and does the decoded key have an address
+				var p cryptotypes.PubKey
+				if genEnv().app.AppCodec().UnmarshalInterfaceJSON([]byte(pkJSON), &p) == nil && p != nil {
+					class = "malformed"
+					func() {
+						defer func() { _ = recover() }()
+						_ = p.Address()
+						class = "nomatch"
+					}()
+				}
 			}
 			if class == "bad" && pkJSON == "{\"@type\":\"/cosmos.crypto.secp256k1.PubKey\",\"key\":\"AA\"}" {
 				// decodes to a (short) key object: classify with the real codec
